@@ -313,6 +313,23 @@ def semiApplyArr (n : Nat) (f : PState × Arr2) (b : Vec) : Array Rat :=
 def semiSolveArr (r : Rat → Rat) (n : Nat) (A : Mat) (b : Vec) : Array Rat :=
   semiApplyArr n (semiFactor r n A) b
 
+/-- `symm_pos_semi_definite_solver::compute_inverse_factor(C)`: `C` is `rank × n` with `A⁺ = Cᵀ C`.
+Full rank: `C = I`, `swap_columns_inverted(P, C)`, `trsm<lower,left>(L, C)`; rank deficient:
+`C = Lᵀ` (`L` = first `rank` columns), `(LᵀL)⁻¹` applied from the left, `swap_columns_inverted(P, C)`.
+Entry `(a, c)` is `mget _ a c`. -/
+def semiInverseFactor (n : Nat) (f : PState × Arr2) : Arr2 :=
+  let s := f.1
+  let rank := s.rank.getD n
+  let F : Mat := fun i j => mget s.M i j
+  if rank = n then
+    let cols : Arr2 := Array.ofFn (n := n) fun c =>
+      trsvArr ⟨false, false⟩ true n F (fun i => if i = permInvOf s.P n c.val then 1 else 0)
+    matOf n n fun a c => mget cols c a
+  else
+    let cols : Arr2 := Array.ofFn (n := n) fun c =>
+      cholSolveArr rank f.2 (fun a => F (permInvOf s.P n c.val) a)
+    matOf rank n fun a c => mget cols c a
+
 /-! ## rank-one update of a Cholesky factor (`cholesky_decomposition::update`, `decompositions.hpp`) -/
 
 /-- state of the column loop of `update(alpha, beta, v)`: the factor (entry `(i,j)` = `mget L i j`),
